@@ -139,6 +139,8 @@ pub struct RunInfo {
 // global (process-wide) panic location: jobs panic on worker threads, the outcome is read on
 // the harness thread
 static PANIC_AT: Mutex<Option<String>> = Mutex::new(None);
+/// earlier calls of a history (prefix) that ended in a panic (caught; the thread carries on)
+static PREFIX_PANICS: std::sync::atomic::AtomicU64 = std::sync::atomic::AtomicU64::new(0);
 
 pub fn install_global_panic_hook() {
     std::panic::set_hook(Box::new(|info| {
@@ -254,7 +256,9 @@ pub fn run_one(sc: &Scenario, op: &'static OpDef, input: &Input, prefix_inputs: 
                 for (pop, pin) in prefix_inputs {
                     // the prefix only churns thread-local key counters, lazies and the heap; a panic
                     // in it is not the call under test
-                    let _ = std::panic::catch_unwind(std::panic::AssertUnwindSafe(|| exec(pop, pin)));
+                    if std::panic::catch_unwind(std::panic::AssertUnwindSafe(|| exec(pop, pin))).is_err() {
+                        PREFIX_PANICS.fetch_add(1, std::sync::atomic::Ordering::SeqCst);
+                    }
                 }
                 // a panic of the prefix must not be taken for the panic location of the call under test
                 *PANIC_AT.lock().unwrap_or_else(|p| p.into_inner()) = None;
@@ -358,7 +362,7 @@ pub fn gen_scenario(seed: u64, large: u8) -> Scenario {
             continue;
         }
         // operations that meet a pool, a keyed map or an address get 3x the weight of the rest
-        let hot = op.large_ok || matches!(op.name, "stitch_triangulation" | "sweep_intersections" | "sweep_intersections_refs" | "interior_point" | "monotone_subdivision" | "par_iter_multipolygon" | "par_iter_multipoint_mls" | "unary_union_multi" | "intersection_poly_poly" | "constrained_triangulation_members" | "constrained_outer_triangulation" | "aggregates" | "geodesic_aggregates" | "concave_hull" | "k_nearest_concave_hull" | "outliers" | "transforms" | "traversals" | "collection_ops" | "misc_per_type" | "convex_hull" | "quick_and_graham_hull");
+        let hot = op.large_ok || matches!(op.name, "stitch_triangulation" | "sweep_intersections" | "sweep_intersections_refs" | "interior_point" | "monotone_subdivision" | "par_iter_multipolygon" | "par_iter_multipoint_mls" | "unary_union_multi" | "intersection_poly_poly" | "constrained_triangulation_members" | "triangulation_overlapping" | "constrained_outer_triangulation" | "aggregates" | "geodesic_aggregates" | "concave_hull" | "k_nearest_concave_hull" | "outliers" | "transforms" | "traversals" | "collection_ops" | "misc_per_type" | "convex_hull" | "quick_and_graham_hull");
         if large == 0 && !hot && !rng.chance(1, 3) {
             continue;
         }
@@ -466,7 +470,11 @@ pub fn gen_cfg(seed: u64, v: u64) -> Cfg {
     let prefix: Vec<String> = if rng.chance(2, 5) {
         (0..1 + rng.below(3))
             .map(|_| {
-                if rng.chance(1, 2) {
+                if rng.chance(1, 5) {
+                    // an earlier call of the same operation that may FAIL: the family's input with one
+                    // kind of damage (hole of < 4 coordinates, empty rings, NaN, bow-tie, all-equal, infinity)
+                    format!("@bad:{}:{}:{}", rng.below(6), 1 + rng.below(12), rng.next_u64())
+                } else if rng.chance(1, 2) {
                     // size 0 = "the same size as the input of the call under test"
                     let size = if rng.chance(1, 2) { 0 } else { 1 + rng.below(24) };
                     format!("@self:{}:{}", size, rng.next_u64())
@@ -503,6 +511,16 @@ fn prefix_inputs_for(sc: &Scenario, cfg: &Cfg) -> Vec<(&'static OpDef, Input)> {
         .iter()
         .enumerate()
         .filter_map(|(k, name)| {
+            if let Some(rest) = name.strip_prefix("@bad:") {
+                if sc.knobs.strategy == 4 {
+                    return None;
+                }
+                let mut it = rest.splitn(3, ':');
+                let (k, size, seed) = (it.next()?, it.next()?, it.next()?);
+                let op = ops::find(&sc.op)?;
+                let size: usize = size.parse::<usize>().ok()?.min(sc.input.size.max(1));
+                return Some((op, inputs::build(&InputSpec { family: format!("bad{}:{}", k, sc.input.family), size, seed: seed.parse().ok()? })));
+            }
             if let Some(rest) = name.strip_prefix("@self:") {
                 if sc.knobs.strategy == 4 {
                     return None; // forced Frag is only ever run on inputs screened by S7
@@ -880,6 +898,7 @@ fn account(t: &mut Tot, sc: &Scenario, cfg: &Cfg, info: &RunInfo) {
     if cfg.env_seed != 0 {
         t.add("runs_with_env_variant", 1);
     }
+    t.add("history_calls_that_panicked", PREFIX_PANICS.swap(0, std::sync::atomic::Ordering::SeqCst));
     t.add("env_var_reads", info.envvar.0);
     t.add("pid_reads", info.envvar.1);
     t.max("fixed_area_relocated", seams::stack_stats().1 + seams::arena_relocated());
@@ -1077,9 +1096,32 @@ pub fn run(a: &Args) -> i32 {
             // the sweep-based operations can run away on some (invalid / degenerate) inputs: a
             // same-operation prefix on ANOTHER input is screened in the pristine child like the
             // scenario itself, and dropped from the history if it does not finish there
-            if let (Some(p), true) = (&pristine, matches!(sc.op.as_str(), "sweep_intersections" | "sweep_intersections_refs" | "interior_point" | "monotone_subdivision")) {
+            // a damaged input ("@bad") can drive any operation into unbounded work: screened for every operation
+            let runaway_op = matches!(sc.op.as_str(), "sweep_intersections" | "sweep_intersections_refs" | "interior_point" | "monotone_subdivision");
+            if pristine.is_none() {
+                cfg.prefix.retain(|name| !name.starts_with("@bad:"));
+            }
+            if let Some(p) = &pristine {
                 let before = cfg.prefix.len();
-                cfg.prefix.retain(|name| match name.strip_prefix("@self:") {
+                cfg.prefix.retain(|name| {
+                    if let Some(rest) = name.strip_prefix("@bad:") {
+                        let mut it = rest.splitn(3, ':');
+                        let (Some(k), Some(size), Some(seed)) = (it.next(), it.next(), it.next()) else { return false };
+                        if sc.knobs.strategy == 4 {
+                            return false;
+                        }
+                        let size = size.parse::<usize>().unwrap_or(1).min(sc.input.size.max(1));
+                        let psc = Scenario { op: sc.op.clone(), input: InputSpec { family: format!("bad{}:{}", k, sc.input.family), size, seed: seed.parse().unwrap_or(0) }, knobs: sc.knobs.clone() };
+                        let ok = p.ask(&serde_json::to_vec(&psc).unwrap(), 2).is_some();
+                        if ok {
+                            tot.add("runs_with_failed_call_history", 1);
+                        }
+                        return ok;
+                    }
+                    if !runaway_op {
+                        return true;
+                    }
+                    match name.strip_prefix("@self:") {
                     None => true,
                     Some(rest) => {
                         let Some((size, seed)) = rest.split_once(':') else { return false };
@@ -1089,6 +1131,7 @@ pub fn run(a: &Args) -> i32 {
                         };
                         let psc = Scenario { op: sc.op.clone(), input: InputSpec { family: sc.input.family.clone(), size, seed: seed.parse().unwrap_or(0) }, knobs: sc.knobs.clone() };
                         p.ask(&serde_json::to_vec(&psc).unwrap(), 2).is_some()
+                    }
                     }
                 });
                 if cfg.prefix.len() != before {
